@@ -386,6 +386,10 @@ def corpus():
     add("relative-import-of-missing-module", {"pkg/__init__.py": "", "pkg/t.py": "from .nope import thing\n"}, target="pkg/t.py")
     add("starred-relative-import-of-missing-module", {"pkg/__init__.py": "", "pkg/t.py": "from .nope import *\n"}, target="pkg/t.py")
     add("bom", {"target.py": {"hex": "efbbbf" + F1.encode().hex()}})
+    # K22 (found while proving the names invariant of NoCrashShapeFn): unbind_name's ValueError("never") is reachable
+    add("K22-sorted", {"target.py": "def f(xs, q):\n    return sorted(xs, key=lambda getattr: getattr(q, 'x').m)\n"})
+    add("K22-results", {"target.py": "def f(getattr, q):\n    return getattr(q, 'x').m\ndef g(b, c):\n    return f(b, c)\n"})
+    add("K22-results-hasattr", {"target.py": "def f(hasattr, q):\n    return hasattr(q, 'x').m\ndef g(b, c):\n    return f(b, c)\n"})
     # sanctioned outcomes, as controls
     add("control-ok", {"target.py": F1})
     add("control-fatal", {"target.py": "def f(a):\n    global x\n"})
@@ -826,9 +830,17 @@ def safe_call(a, b):
                  and l.split("(")[0][4:] not in ("helper",)]
     wit_names = [n for n in wit_names if n not in ("helper", "ahelper")]
     cases = vl.run_batch(rng, n_modules, model, hostile=0.1, extra_sources=[(witnesses, wit_names)])
-    reqs = [("no_crash_shape", {"body": [vl.enc(s) for s in c.fn.body]}) for c in cases]
+    # the root context each function was analysed in (the module's real root context): `SaneCtx` is a hypothesis of
+    # C07_fn_no_crash_partial, evaluated by the driver on the same snapshot the model was given
+    roots = {}
+    reqs = []
+    for c in cases:
+        if c.module_src not in roots:
+            roots[c.module_src] = vl.root_snapshot(vl.prepare(c.module_src)[1])
+        reqs.append(("no_crash_shape", {"body": [vl.enc(s) for s in c.fn.body], "root": roots[c.module_src]}))
     preds = model.batch(reqs)
-    n_pred_true = n_crash = n_over = 0
+    n_pred_true = n_crash = n_over = n_round1 = n_over_round1 = n_insane = 0
+    over_rows = {}
     for c, p in zip(cases, preds):
         res.evaluations += 1
         case = {"function": c.fn_src}
@@ -838,19 +850,185 @@ def safe_call(a, b):
         if isinstance(p, dict) and "__error__" in p:
             res.disagreements.append({"case": case, "diff": "no_crash_shape: " + str(p["__error__"])[:300]})
             continue
-        ok = bool(p["ok"])
+        ok, ok1, sane = bool(p["ok"]), bool(p.get("ok_anyctx")), bool(p.get("sane", True))
         crashed = c.im["outcome"] == "crash"
         n_pred_true += ok
+        n_round1 += ok1
         n_crash += crashed
-        if ok and crashed:
-            res.disagreements.append({"case": case, "diff": f"NoCrashShapeFn = true but the real FunctionAnalyser raised {c.im['exc']}"})
+        n_insane += not sane
+        if ok and sane and crashed:
+            res.disagreements.append({"case": case, "diff": f"NoCrashShapeFn = true (root context sane) but the real FunctionAnalyser raised {c.im['exc']}"})
+        if ok1 and crashed:
+            res.disagreements.append({"case": case, "diff": f"NoCrashShapeFnAnyCtx = true but the real FunctionAnalyser raised {c.im['exc']}"})
+        if ok1 and not ok:
+            res.internal_errors.append({"what": "the wider predicate rejects a body the round-1 predicate accepts", "case": case})
         if not ok and not crashed:
             n_over += 1
+            for r in p.get("rows", []):
+                over_rows[r] = over_rows.get(r, 0) + 1
+        if not ok1 and not crashed:
+            n_over_round1 += 1
         if crashed:
             res.nontrivial.add(common.digest(c.fn_src))
-            res.count("fn-crash-row:" + "+".join(p.get("rows", [])[:3]))
+            res.count("fn-crash-row:" + "+".join(r.split(":")[0] for r in p.get("rows", [])[:3]))
     res.extra["fn_predicate"] = {"functions": len(cases), "predicate_true": n_pred_true, "real_crashes": n_crash,
-                                 "predicate_false_without_crash": n_over}
+                                 "predicate_false_without_crash": n_over,
+                                 "predicate_false_without_crash_by_clause": dict(sorted(over_rows.items())),
+                                 "round1_predicate_true": n_round1, "round1_predicate_false_without_crash": n_over_round1,
+                                 "root_context_not_sane": n_insane}
+    return cases
+
+
+# ------------------------------------------------------------------------------------ module-level tie
+
+# witnesses of the crash classes of the single-file pipeline model (each has a C07_cex_file_* theorem) + benign controls
+FILE_WITNESSES = [
+    ("K1-dotted-star", "target.py", "from lp.sub import *\ndef f(a):\n    return a.x\n"),
+    ("K4-module-store", "target.py", "p = q = 1\n(p + q).c = 1\ndef f(a):\n    return a.x\n"),
+    ("K4-module-del", "target.py", "p = q = 1\ndel (p + q).c\n"),
+    ("K4-module-lambda", "target.py", "p = q = 1\n(p + q).c = lambda z: z.w\n"),
+    ("K4-class-body", "target.py", "p = q = 1\nclass C:\n    (p + q).c = 1\n    def __init__(self, a):\n        self.a = a\n"),
+    ("K2-decorator", "target.py", "d = [1]\n@d[0]\ndef f(a):\n    return a.x\n"),
+    ("K2-method-decorator", "target.py", "d = [1]\nclass C:\n    @d[0]\n    def m(self):\n        pass\n"),
+    ("K7-call-spec", "target.py", "from rattr.analyser.annotations import rattr_results\n@rattr_results(calls=[('f', (['a'], ['b']))])\ndef g(a):\n    pass\n"),
+    ("K11-def-then-class", "target.py", "def C(a):\n    return a.x\nclass C:\n    def __init__(self, q):\n        self.q = q\n"),
+    ("K11-class-in-match", "target.py", "v = 1\nmatch v:\n    case 1:\n        class M:\n            def __init__(self, q):\n                self.q = q\n"),
+    ("K11-builtin-name", "target.py", "class list:\n    def __init__(self, q):\n        self.q = q\n"),
+    ("K3-in-function", "target.py", "def f(xs):\n    return sorted(xs, key=lambda a, b: a.k)\n"),
+    ("K22-sorted", "target.py", "def f(xs, q):\n    return sorted(xs, key=lambda getattr: getattr(q, 'x').m)\n"),
+    ("K22-results", "target.py", "def f(getattr, q):\n    return getattr(q, 'x').m\ndef g(b, c):\n    return f(b, c)\n"),
+    ("K10-results", "target.py", "from ghost_mod import g\ndef f(a):\n    return g(a)\n"),     # -F ghost_.*: blacklisted, module not found
+    ("control-plain", "target.py", "import os\nfrom lp.sub import f as ff\nclass K:\n    def __init__(self, v):\n        self.v = v.kv\n    @staticmethod\n    def sm(w):\n        return w.s\n"
+                                   "lam2 = lambda p: p.q\ndef top(a, b):\n    return sorted(a.xs, key=lambda w: w.k) + [K(b).v, K.sm(a), ff(b), lam2(a), (a + b).m(1, b)]\n"),
+    ("control-fatal", "target.py", "def f(a):\n    import json\n    (a + 1).c = 2\n"),
+    ("control-class-no-init", "target.py", "def C(a):\n    return a.x\nclass C:\n    z = 1\n"),
+]
+
+
+def file_tie(rng, n_modules, res, model):
+    """The Lean predicates NoCrashShapeFile / NoCrashShapePipeline on whole modules vs the REAL stages:
+    NoCrashShapeFile ⇒ the real root-context builder and the real FileAnalyser do not raise, and the real
+    `rattr.__main__.main` (-f 0) raises at most one of the exceptions of result generation the theorem names;
+    NoCrashShapePipeline ⇒ the real main does not raise at all. A failure of an implication is a MODEL error."""
+    import ast as _ast
+    import impl
+    from props import filegen, filelib, pipeline
+
+    work = [(n, t, src) for n, t, src in FILE_WITNESSES]
+    work += [(None, t, src) for t, src in filegen.CURATED + filegen.PIPELINE_CURATED]
+    for i in range(n_modules):
+        gen = filegen.gen_pipeline_module if i % 2 == 0 else filegen.gen_file_module
+        src, target = gen(rng, hostile=0.1 if i % 4 < 2 else 0.02)
+        work.append((None, target, src))
+    cases, projects, case_projects = [], [], []
+    try:
+        for name, target, src in work:
+            try:
+                _ast.parse(src)
+            except SyntaxError:
+                continue
+            project = filelib.make_project()
+            projects.append(project)
+            fc = filelib.run_case(project, target, src, excluded=pipeline.EXCLUDE, excluded_imports=pipeline.EXCLUDE_IMPORTS)
+            if fc.skipped is not None:
+                res.skipped_outside_fragment += 1
+                res.count("file-tie:skipped:" + fc.skipped[:40])
+                continue
+            im = pipeline.real_pipeline(project, target)
+            cases.append((name, target, src, fc, im))
+            case_projects.append(project)
+        preds = model.batch([("no_crash_shape_file", fc.payload) for _, _, _, fc, _ in cases])
+        # the pipeline predicate needs the facts result generation asks for: pass 1 of op `pipeline` says which
+        # (as props/pipeline.py does), the real locator answers while the project still exists
+        from rattr.analyser.util import is_excluded_name
+        need = model.batch([("pipeline", fc.payload) for _, _, _, fc, _ in cases])
+        payloads2 = []
+        for (name, target, src, fc, im), mo, project in zip(cases, need, case_projects):
+            pl = fc.payload
+            if isinstance(mo, dict) and "__error__" not in mo:
+                with impl.in_dir(str(project)):
+                    impl.reset_config(target=Path(target), _excluded_names=list(pipeline.EXCLUDE), _follow_imports_level=0,
+                                      _excluded_imports=list(pipeline.EXCLUDE_IMPORTS))
+                    ex = set(pl["facts"]["excluded"]) | {x for x in mo.get("callTargets", []) if is_excluded_name(x)}
+                    pl = {**pl, "facts": {**pl["facts"], "excluded": sorted(ex)},
+                          "imports": [[q, pipeline.import_fact(q)] for q in mo.get("needImports", [])]}
+            payloads2.append(pl)
+        ppreds = model.batch([("no_crash_shape_pipeline", pl) for pl in payloads2])
+    finally:
+        for pr in projects:
+            filelib.drop_project(pr)
+    n_true = n_front_crash = n_over = n_results_crash = n_ptrue = n_any_crash = n_pover = 0
+    over_parts, pover_parts = {}, {}
+    allowed = {"ValueError", "ImportError"}
+    for (name, target, src, fc, im), p, pp in zip(cases, preds, ppreds):
+        res.evaluations += 1
+        case = {"stage": "file-tie", "target": target, "module": src, "witness": name}
+        if isinstance(p, dict) and "__error__" in p:
+            res.disagreements.append({"case": case, "diff": "no_crash_shape_file: " + str(p["__error__"])[:300]})
+            continue
+        if isinstance(pp, dict) and "__error__" in pp:
+            res.disagreements.append({"case": case, "diff": "no_crash_shape_pipeline: " + str(pp["__error__"])[:300]})
+            continue
+        # ---- the pipeline predicate: NoCrashShapePipeline => rattr.__main__.main does not raise at all
+        pok = bool(pp["ok"])
+        any_crash = im["outcome"] == "crash" or fc.root_im["outcome"] == "crash" or (fc.file_im is not None and fc.file_im["outcome"] == "crash")
+        n_ptrue += pok
+        n_any_crash += any_crash
+        if pok and any_crash:
+            res.disagreements.append({"case": case, "diff": f"NoCrashShapePipeline = true but the real run raised {im.get('exc')}"})
+        if pok and not bool(p["ok"]):
+            res.internal_errors.append({"what": "NoCrashShapePipeline holds where NoCrashShapeFile does not", "case": case})
+        if not pok and not any_crash:
+            n_pover += 1
+            for part in (pp.get("resultsUnsafe") or []) if pp.get("file") else ["NoCrashShapeFile"]:
+                pover_parts[part] = pover_parts.get(part, 0) + 1
+        ok = bool(p["ok"])
+        root_crash = fc.root_im["outcome"] == "crash"
+        file_crash = fc.file_im is not None and fc.file_im["outcome"] == "crash"
+        front_crash = root_crash or file_crash
+        main_crash = im["outcome"] == "crash"
+        n_true += ok
+        n_front_crash += front_crash
+        res.count("file-tie:real:" + ("root-crash:" + fc.root_im["exc"] if root_crash else
+                                      "file-crash:" + fc.file_im["exc"] if file_crash else
+                                      "main-crash:" + im["exc"] if main_crash else im["outcome"]))
+        if main_crash and not front_crash:
+            n_results_crash += 1
+        if ok and front_crash:
+            res.disagreements.append({"case": case, "diff": "NoCrashShapeFile = true but the real "
+                                      + ("root-context builder raised " + fc.root_im["exc"] if root_crash else "FileAnalyser raised " + fc.file_im["exc"])})
+        elif ok and main_crash and im["exc"] not in allowed:
+            res.disagreements.append({"case": case, "diff": f"NoCrashShapeFile = true but rattr.__main__.main raised {im['exc']} "
+                                      "(not one of the result-generation exceptions the theorem leaves open)"})
+        if front_crash or main_crash:
+            res.nontrivial.add(common.digest(src))
+        if not ok and not front_crash:
+            n_over += 1
+            for r in p.get("rows", []):
+                for part in r["parts"]:
+                    k = r["stmt"].split(":")[0] + ":" + part
+                    over_parts[k] = over_parts.get(k, 0) + 1
+            if not p.get("noCustomOnDef", True):
+                over_parts["noCustomOnDef"] = over_parts.get("noCustomOnDef", 0) + 1
+        if name is not None:
+            res.sample({"witness": name, "predicate": ok, "real": {"root": fc.root_im["outcome"], "file": fc.file_im["outcome"] if fc.file_im else None,
+                                                                   "main": im["outcome"], "exc": im.get("exc")}}, cap=60)
+            expect_reject = not name.startswith("control") and not name.endswith("-results")
+            if expect_reject and ok:
+                res.internal_errors.append({"what": "a crash witness satisfies NoCrashShapeFile", "witness": name})
+            if not name.startswith("control") and pok:
+                res.internal_errors.append({"what": "a crash witness satisfies NoCrashShapePipeline", "witness": name})
+            if name.startswith("control") and not pok:
+                res.internal_errors.append({"what": "a control module is rejected by NoCrashShapePipeline", "witness": name, "parts": pp.get("resultsUnsafe")})
+            if name.startswith("control") and not ok:
+                res.internal_errors.append({"what": "a control module is rejected by NoCrashShapeFile", "witness": name, "rows": p.get("rows")})
+    res.extra["file_predicate"] = {"modules": len(cases), "predicate_true": n_true, "real_front_stage_crashes": n_front_crash,
+                                   "real_result_generation_crashes": n_results_crash,
+                                   "predicate_false_without_front_crash": n_over,
+                                   "predicate_false_without_front_crash_by_part": dict(sorted(over_parts.items())),
+                                   "pipeline_predicate_true": n_ptrue, "real_crashes_any_stage": n_any_crash,
+                                   "pipeline_predicate_false_without_crash": n_pover,
+                                   "pipeline_predicate_false_without_crash_by_part": dict(sorted(pover_parts.items()))}
     return cases
 
 
@@ -875,6 +1053,7 @@ def run(tier, seed, build):
     n_projects = 400 if tier == "quick" else 2400
     n_sweep = 60 if tier == "quick" else 400
     n_fn_modules = 70 if tier == "quick" else 500
+    n_file_modules = 36 if tier == "quick" else 400
     model = common.Model()
     tmp = Path(tempfile.mkdtemp(prefix="rattr-c07-"))
     try:
@@ -1043,6 +1222,7 @@ def run(tier, seed, build):
         res.extra["cli_runs"] = len(cases)
 
         function_tie(rng, n_fn_modules, res, model)
+        file_tie(rng, n_file_modules, res, model)
     finally:
         shutil.rmtree(tmp, ignore_errors=True)
     res.assumptions = [
@@ -1052,7 +1232,8 @@ def run(tier, seed, build):
         "a case whose signature is not a known finding is re-run (up to twice) and reported only if the signature recurs; unreproduced ones are listed in evidence (`unreproduced_candidates`)",
         "a 30 s wall-clock timeout is only a suspicion: the case is re-run alone and reported as a hang only after >= 60 s of its own CPU time (or 240 s wall) without finishing; at most 2 such confirmations per run, further timed-out rows are listed as unconfirmed and are never violations by themselves",
         "interpreter resource limits (RecursionError on ~1000-deep expressions, memory) and the contents of real site-packages / stdlib at follow levels 2-3 are outside the claim (sampled only)",
-        "the crash-freedom theorem covers the function analyser model; file / class / root-context / import / results stages are covered by the raise-site table (Tie A) and this CLI sweep",
+        "the crash-freedom theorems cover the function analyser (C07_fn_no_crash_partial, sane root contexts) and the single-file pipeline up to result generation (C07_file_no_crash_partial: root-context builder, file / class analysers; result generation is covered under the condition ResultsSafe on the FileIr: C07_results_no_crash_partial, C07_pipeline_no_crash_partial); import following, the cache and the CLI are covered by the raise-site table (Tie A) and this CLI sweep",
+        "(v) module tie: the Lean predicates NoCrashShapeFile / NoCrashShapePipeline on every generated single-file module vs the real stages run in-process: NoCrashShapeFile => the real compile_root_context and FileAnalyser do not raise and rattr.__main__.main raises at most ValueError / ImportError; NoCrashShapePipeline => rattr.__main__.main does not raise at all; a failure of either implication is reported as a disagreement (model error)",
     ]
     return res
 
